@@ -164,6 +164,19 @@ def run(prop, tier, seed):
     if not r.get("ok"):
         raise V.ToolError(f"MC_Stats: {r.get('violated') or r.get('error')}")
 
+    # counter bookkeeping (Counters.tla): every order of counter / input_counter calls, samples and
+    # discarded tuning rounds; the algorithm as it was before the F6 fix must violate the invariants
+    r = V.tlc_mc("MC_Counters", "Counters_q", workers=8)
+    res.add_mc("Counters_q", r)
+    if not r.get("ok"):
+        raise V.ToolError(f"MC_Counters: {r.get('violated') or r.get('error')}")
+    r = V.tlc_mc("MC_Counters", "Counters_v_before_fix", workers=1, coverage=False)
+    res.extra.setdefault("necessity_variants", []).append(
+        {"config": "Counters_v_before_fix", "expected": ["FiguresBelongToTheirSamples", "MeanOverRecordedSamples"],
+         "got": r.get("violated")})
+    if r.get("violated") not in ("FiguresBelongToTheirSamples", "MeanOverRecordedSamples"):
+        raise V.ToolError(f"Counters_v_before_fix: expected a violation, got {r.get('violated')}")
+
     scs = injected(tier, seed) + bench_scenarios(tier, seed)
     trace_path, summary = V.run_driver(scs, "C05.impl")
     res.extra["driver"] = summary
